@@ -26,7 +26,7 @@ try:
         open(os.path.join(b,f),'w').write(s.replace(old,new))
         files.append(f)
     out=subprocess.run(['diff','-ruN','a','b'],cwd=tmp,capture_output=True,text=True).stdout
-    dst=f'/verif/checker/mutants/{prop}-{name}'
+    dst=f"/verif/checker/{'neutral' if os.environ.get('NEUTRAL') else 'mutants'}/{prop}-{name}"
     open(dst+'.patch','w').write(out)
     json.dump({"property":prop,"expect":expect,"note":note,"files":files},open(dst+'.json','w'),indent=1)
     print("wrote",dst+'.patch',len(out.splitlines()),"lines")
